@@ -44,6 +44,12 @@ Theorem c01_format_table : forall f : fmt,
 Proof. exact format_table_ok. Qed.
 Print Assumptions c01_format_table.
 
+(* The diagonal (12 same-format "conversions": `impl<S> FromSample<S> for S`, which no impl_from_sample! row may
+   overlap): the value itself, in both build profiles, and the rescaling formula says the same (factor 2^0). *)
+Theorem c01_same_format : forall (m : mode) (f : fmt) (z : Z), to_sample m f f z = Ok z /\ spec_conv f f z = z.
+Proof. exact to_sample_same_format. Qed.
+Print Assumptions c01_same_format.
+
 (* ---- from the specification alone, all formats ---- *)
 
 (* "rounded toward negative infinity when narrowing": r is the floor of amplitude / 2^(bits s - bits d) *)
